@@ -129,6 +129,19 @@ func TestVerifC20_CodecExhaustive(t *testing.T) {
 			}
 		}
 	}
+	// every value of the type byte
+	for typ := 0; typ < 256; typ++ {
+		for _, pad := range []int{0, 5, 1024} {
+			r := vC20Fill(uint64(typ)*7+uint64(pad), vC20SaltLen+pad)
+			pkt := vC20Encode(byte(typ), m, r[:8], r[8:])
+			valid := typ == vC20Hello || typ == vC20Ack
+			st.Case(!valid, fmt.Sprintf("type/%d/%d", typ, pad), []string{"every-type"}, func() string { return fmt.Sprintf("type=%#02x pad=%d", typ, pad) })
+			got, err := DecodePunchPacket(pkt, m.pm())
+			if valid != (err == nil) || (valid && (int(got.Type) != typ || got.PaddingLength != pad)) {
+				t.Fatalf("C20: packet with type byte %#02x padding %d under its own metadata: decoded %+v err=%v (only 0x01 and 0x02 are punch packet types)", typ, pad, got, err)
+			}
+		}
+	}
 	// the implementation's encoder -> harness decoder
 	seen := map[int]bool{}
 	for i := 0; i < 6000; i++ {
